@@ -37,6 +37,7 @@ func c19Cfg(maxOps, maxArgs int, variant string, emit bool) string {
   Extras = %s
   Variant = "%s"
   EmitHist = %s
+  EmitFilter = "all"
 INIT Init
 NEXT Next
 INVARIANTS TypeOK ContentIsModel ArgsIntact NoRetention AllStable Emit
@@ -91,6 +92,18 @@ func checkC19(c *Ctx) {
 	if len(behs) == 0 {
 		c.Infra("TLC emitted no behaviours")
 		return
+	}
+	// one action more for the behaviours in which the caller holds a result of All() across a Replace
+	// (NewArg, Append, All, a second caller slice or a caller mutation, Replace: five actions)
+	if genOps < 5 {
+		snapCfg := strings.Replace(c19Cfg(5, 2, "code", true), `EmitFilter = "all"`, `EmitFilter = "snap"`, 1)
+		sg, err := RunTLC(TLCRun{Module: "Decorations", Cfg: snapCfg, Workers: 12, Timeout: 20 * time.Minute})
+		if err != nil || !sg.OK() {
+			c.Infra("TLC generation run (held All() results) failed: " + errText(sg, err))
+			return
+		}
+		c.TLC(sg)
+		behs = append(behs, sg.Payloads("BEH ")...)
 	}
 	c.Set("behaviours_emitted", len(behs))
 	c.Set("replay_bounds", fmt.Sprintf("all behaviours of exactly %d actions", genOps))
